@@ -232,7 +232,7 @@ func emit(e *c06env.Env, w *kit.Out, p plan) {
 }
 
 func gen(w *kit.Out, r *kit.Rand, tier string) {
-	nRand := 25
+	nRand := 10
 	if tier == "thorough" {
 		nRand = 150
 	}
